@@ -276,9 +276,9 @@ macro_rules! spawn_derived {
                         (false, Some(initial_fut))
                     }
                     Some(orig_value) => {
-                        let mut guard = this.inner.write().or_poisoned();
-
-                        guard.state = AsyncDerivedState::Clean;
+                        // `state` is left alone: it is `Clean` unless a source was
+                        // written while the function or this first poll ran, and then
+                        // it has to stay `Dirty` so that the task runs again
                         *value.blocking_write() = orig_value;
                         this.loading.store(false, Ordering::Relaxed);
                         (true, None)
